@@ -110,6 +110,42 @@ def names_from_introspection(schema):
     return names
 
 
+DEFAULTS_Q = "{ __schema { types { name fields(includeDeprecated: true) { name args { name defaultValue } } inputFields { name defaultValue } } directives { name args { name defaultValue } } } }"
+
+
+def defaults_probe(schema):
+    """Every defaultValue the schema reports is GraphQL syntax for a value of the argument's / input field's type IN THIS SCHEMA.
+    -> list of (owner, text, reason)"""
+    from py_gql import graphql_blocking
+    from py_gql.lang import parse_value
+    from py_gql.utilities import value_from_ast
+    res = graphql_blocking(schema, DEFAULTS_Q)
+    if res.errors:
+        raise RuntimeError("introspection failed: %s" % res.errors[0])
+    bad = []
+
+    def one(owner, text, type_):
+        if text is None:
+            return
+        try:
+            value_from_ast(parse_value(text), type_)
+        except Exception as e:
+            bad.append((owner, text, "%s: %s" % (type(e).__name__, str(e)[:120])))
+    for t in res.data["__schema"]["types"]:
+        if t["name"].startswith("__"):
+            continue
+        real = schema.types[t["name"]]
+        for f in t.get("fields") or []:
+            for a in f["args"]:
+                one("%s.%s(%s)" % (t["name"], f["name"], a["name"]), a["defaultValue"], real.field_map[f["name"]].argument_map[a["name"]].type)
+        for f in t.get("inputFields") or []:
+            one("%s.%s" % (t["name"], f["name"]), f["defaultValue"], real.field_map[f["name"]].type)
+    for d in res.data["__schema"]["directives"]:
+        for a in d["args"]:
+            one("@%s(%s)" % (d["name"], a["name"]), a["defaultValue"], schema.directives[d["name"]].argument_map[a["name"]].type)
+    return bad
+
+
 def run_sequence(beh, style="constructor"):
     from py_gql.schema.transforms import CamelCaseSchemaTransform, VisibilitySchemaTransform, transform_schema
     from py_gql.sdl import extend_schema
@@ -178,6 +214,15 @@ def run_sequence(beh, style="constructor"):
         _check_all(by, newidx)
         for j, sch in sorted(live.items()):
             coercion_probe(j, sch, by)
+            if by != "init" and j != newidx:
+                continue                # (defaults: the base once, then every schema when it is derived - its source was probed before)
+            try:
+                bad = defaults_probe(sch)
+            except Exception as e:
+                out.append(("ops/defaults-probe-raises/%s/by=%s" % (type(e).__name__, by), {"schema": j, "error": repr(e)[:300]}))
+                continue
+            if bad:
+                out.append(("ops/reported-default-not-a-value-of-its-type/by=%s/origin=%s" % (by, origin[j]), {"schema": j, "defaults": bad[:3]}))
 
     check_all("init", 1)
     if out:
